@@ -1,0 +1,8 @@
+//go:build !verif
+// +build !verif
+
+package ledgerstore
+
+func verifCrashPoint(site string, height uint32) {}
+
+func verifNeedFix(needFix bool) bool { return needFix }
